@@ -459,9 +459,36 @@ pub fn gen_snippet(rng: &mut Rng) -> usize {
     rng.weighted(&W)
 }
 
+/// Each source path has a "home" family of snippets. Writing mostly within the family keeps
+/// the project consistent (no duplicate definitions, dependencies in their usual place), so
+/// that most compiles reach the write phase; the rest of the writes take any snippet.
+fn family_snippet(path: usize, rng: &mut Rng) -> usize {
+    let family: &[usize] = match path {
+        0 => &[2, 18, 2],
+        1 => &[0, 1],
+        2 => &[3],
+        3 => &[4, 19, 4],
+        4 => &[5],
+        5 => &[6],
+        6 => &[7],
+        7 => &[12],
+        8 => &[13],
+        15 => &[16],
+        16 => &[17],
+        _ => &[11],
+    };
+    *rng.pick(family)
+}
+
+fn gen_write(rng: &mut Rng) -> EdOp {
+    let path = *rng.pick(&SOURCE_PATHS);
+    let snippet = if rng.chance(3, 4) { family_snippet(path, rng) } else { gen_snippet(rng) };
+    EdOp::Write(path, snippet)
+}
+
 fn gen_edit(rng: &mut Rng) -> EdOp {
     match rng.weighted(&[10, 3, 2, 1]) {
-        0 => EdOp::Write(*rng.pick(&SOURCE_PATHS), gen_snippet(rng)),
+        0 => gen_write(rng),
         1 => EdOp::Delete(*rng.pick(&SOURCE_PATHS)),
         2 => EdOp::WriteSchema(*rng.pick(&[0usize, 0, 0, 0, 1, 1, 2, 3])),
         _ => EdOp::WriteExt(*rng.pick(&[0usize, 0, 0, 1, 1, 2])),
@@ -530,9 +557,13 @@ pub fn generate(seed: u64, with_faults: bool) -> SessionCase {
     // initial project: empty (no client fields) in 1 of 6 runs, otherwise a few files,
     // mostly valid
     if !rng.chance(1, 6) {
-        for _ in 0..rng.range(1, 4) {
-            let s = *rng.pick(&[0usize, 1, 2, 3, 4, 5, 6, 7, 12, 13, 11, 2, 4, 18, 19]);
-            let op = EdOp::Write(*rng.pick(&SOURCE_PATHS), s);
+        for _ in 0..rng.range(2, 6) {
+            // the two snippets most others select from first, then family members
+            let op = match steps.iter().filter(|s| matches!(s, Step::Edit(EdOp::Write(..)))).count() {
+                0 if rng.chance(2, 3) => EdOp::Write(1, 0),
+                1 if rng.chance(2, 3) => EdOp::Write(2, 3),
+                _ => gen_write(&mut rng),
+            };
             track_edit(&mut cur, &op);
             steps.push(Step::Edit(op));
         }
@@ -554,7 +585,7 @@ pub fn generate(seed: u64, with_faults: bool) -> SessionCase {
                 }));
             }
             0 => {
-                let op = if rng.chance(1, 4) { gen_toggle_entrypoint(&cur, &mut rng).unwrap_or_else(|| gen_edit(&mut rng)) } else { gen_edit(&mut rng) };
+                let op = if rng.chance(1, 3) { gen_toggle_entrypoint(&cur, &mut rng).unwrap_or_else(|| gen_edit(&mut rng)) } else { gen_edit(&mut rng) };
                 track_edit(&mut cur, &op);
                 steps.push(Step::Edit(op));
             }
@@ -570,7 +601,10 @@ pub fn generate(seed: u64, with_faults: bool) -> SessionCase {
                         sys = Some(if rng.chance(2, 3) {
                             // relative to one operation of the writer (a file operation is 1-3 calls,
                             // a recursive directory removal many)
-                            SysFault { at: *rng.pick(&[0u32, 0, 0, 1, 1, 2, 3, 5, 9, 17]), kind, op: Some(rng.below(22) as u32) }
+                            // addressed by index, or as "the n-th operation of this kind" (so that the
+                            // rare kinds - single-file deletions - are hit as well)
+                            let op = if rng.chance(1, 3) { 1000 * *rng.pick(&[1u32, 1, 2, 3, 4]) + *rng.pick(&[0u32, 0, 1, 2]) } else { rng.below(22) as u32 };
+                            SysFault { at: *rng.pick(&[0u32, 0, 0, 1, 1, 2, 3, 5, 9, 17]), kind, op: Some(op) }
                         } else {
                             let at = match rng.below(3) { 0 => rng.below(8), 1 => rng.below(40), _ => rng.below(300) } as u32;
                             SysFault { at, kind, op: None }
